@@ -266,8 +266,71 @@ func fileCase(c Case, rec *evid.Rec) (err error) {
 			return fmt.Errorf("epoch %d over the sub-ranges %v (%d lines): %s", c.Epoch, cuts, n, d)
 		}
 	}
+	// (3) several chunks of the same Chunker open at once and read in turns (the tuner client's workers share one
+	// Chunker and each holds its own open Chunk): the ranges partition [0,n), so together they still deliver
+	// every line once. Turn lengths derive from the case's Seed; at most four chunks are open at a time.
+	interleaved := 0
+	if len(c.Cuts) > 0 || c.Seed%3 == 0 {
+		cuts := []int{0, n}
+		for _, x := range c.Cuts {
+			cuts = append(cuts, x%(n+1))
+		}
+		for k := 1; k < 4 && len(c.Cuts) == 0; k++ {
+			cuts = append(cuts, k*n/4)
+		}
+		sort.Ints(cuts)
+		var rs [][2]int
+		for i := 0; i+1 < len(cuts); i++ {
+			if cuts[i] < cuts[i+1] {
+				rs = append(rs, [2]int{cuts[i], cuts[i+1]})
+			}
+		}
+		got = got[:0]
+		for g := 0; g < len(rs); g += 4 {
+			grp := rs[g:min(g+4, len(rs))]
+			chs := make([]*Chunk, len(grp))
+			for i, r := range grp {
+				ch, e := ck.Open(int(c.Epoch), r[0], r[1])
+				if e != nil {
+					return fmt.Errorf("Open(%d, %d, %d) on %d lines with %d other chunks open: %v", c.Epoch, r[0], r[1], n, i, e)
+				}
+				chs[i] = ch
+			}
+			live, turn := len(chs), uint(c.Seed)
+			done := make([]bool, len(chs))
+			for live > 0 {
+				for i, ch := range chs {
+					if done[i] {
+						continue
+					}
+					turn = turn*1103515245 + 12345
+					for k := 1 + (turn>>16)%3; k > 0 && !done[i]; k-- {
+						l, e := ch.Read()
+						if e == io.EOF {
+							done[i] = true
+							live--
+							ch.Close()
+						} else if e != nil {
+							return fmt.Errorf("Read in range [%d,%d) with %d chunks open: %v", grp[i][0], grp[i][1], live, e)
+						} else {
+							got = append(got, bytes.Clone(l))
+						}
+					}
+				}
+			}
+			if len(grp) > 1 {
+				interleaved++
+			}
+		}
+		if d := sameMultiset(multiset(got), wantSet); d != "" {
+			return fmt.Errorf("epoch %d over the ranges %v (%d lines) read in turns from chunks that are open at the same time: %s", c.Epoch, rs, n, d)
+		}
+	}
 	if rec != nil {
 		rec.Eval(1)
+		if interleaved > 0 {
+			rec.Class("chunks_open_at_once_read_in_turns")
+		}
 		blankMid, blankEnd, varLen := false, false, false
 		for i, l := range c.Lines {
 			if l == 0 {
@@ -323,7 +386,7 @@ func checkCase(c Case, rec *evid.Rec) error {
 
 func TestC20(t *testing.T) {
 	evid.Main(t, "C20", func(rec *evid.Rec) {
-		rec.Rule("scratch copy of tools/tuner/{epd,tuning} built from the working tree (in-package access to shuffleIndex). Shuffle: EVERY n in 1..4096 (quick) / 1..16384 (thorough, plus 1..65536 for two epochs) x epochs {0..7, 2^63-1, 2^63, 2^63+1, 2^64-1} and seeded random 64 bit epochs: {shuffleIndex(i,n,e)} is a permutation of 0..n-1 (bitmap); sampled n around powers of two +-1 up to 2^22 (2^24 thorough). Ranges: Batches(n) partition [0,n) in order and Chunks(batch) partition each batch for the same n plus values around multiples of the batch and chunk sizes. End to end: generated files (line lengths 1..4000, blank lines in the middle and at the end, carriage returns, 1..30000 lines so that several chunks occur, one file larger than the 32 MiB read buffer) read through NewChunker + Open for all chunks of all batches and for arbitrary generated sub-ranges: multiset of delivered lines == multiset of non-blank lines, byte for byte; Rewind re-delivers. Non-trivial = n >= 3 not a power of two (shuffle), file with variable line lengths and >= 3 lines; distinct by (n, epoch) / file description")
+		rec.Rule("scratch copy of tools/tuner/{epd,tuning} built from the working tree (in-package access to shuffleIndex). Shuffle: EVERY n in 1..4096 (quick) / 1..16384 (thorough, plus 1..65536 for two epochs) x epochs {0..7, 2^63-1, 2^63, 2^63+1, 2^64-1} and seeded random 64 bit epochs: {shuffleIndex(i,n,e)} is a permutation of 0..n-1 (bitmap); sampled n around powers of two +-1 up to 2^22 (2^24 thorough). Ranges: Batches(n) partition [0,n) in order and Chunks(batch) partition each batch for the same n plus values around multiples of the batch and chunk sizes. End to end: generated files (line lengths 1..4000, blank lines in the middle and at the end, carriage returns, 1..30000 lines so that several chunks occur, one file larger than the 32 MiB read buffer) read through NewChunker + Open for all chunks of all batches and for arbitrary generated sub-ranges, read one after the other and also from up to four chunks of one Chunker held open at once and read in generated turns (as the client's workers do): multiset of delivered lines == multiset of non-blank lines, byte for byte; Rewind re-delivers. Non-trivial = n >= 3 not a power of two (shuffle), file with variable line lengths and >= 3 lines; distinct by (n, epoch) / file description")
 		rec.Assume("files are in the documented format: newline-terminated lines shorter than the 4 KiB line-reader buffer")
 		shard, nsh := evid.Shard()
 		epochs := []uint64{0, 1, 2, 3, 4, 5, 6, 7, 1<<63 - 1, 1 << 63, 1<<63 + 1, 1<<64 - 1}
